@@ -291,3 +291,50 @@ def rule_finally_clean(ctx, rid, funcs):
                    "the finally suite neither raises nor returns" if not bad else
                    f"`{norm(bad[0])[:50]}` inside a finally replaces a pending KeyboardInterrupt (Ctrl-C is reported as another error or lost)")
     return n
+
+
+# ------------------------------------------------------------------------------------------------ C07.L9
+def rule_worklists_terminate(ctx, rid):
+    """Every `while <worklist>:` loop on the calling thread pops one element per iteration and pushes only under a
+    visited-set guard (each node expanded once) or when a strictly decremented counter reaches zero (each node
+    pushed once): terminates on cyclic input as well."""
+    m = ctx.model
+    n = 0
+    for f in m.funcs.values():
+        if not f.module.name.startswith(("uberjob._util.networkx_util", "uberjob._execution.greedy", "uberjob._transformations")):
+            continue
+        for w in [x for x in f.own_nodes() if isinstance(x, ast.While)]:
+            if not isinstance(w.test, ast.Name):
+                continue
+            wl = w.test.id
+            n += 1
+            pops = [c for c in ast.walk(w) if isinstance(c, ast.Call) and isinstance(c.func, ast.Attribute) and c.func.attr in ("pop", "popleft") and is_name(c.func.value, wl)]
+            first = w.body[0] if w.body else None
+            ok_pop = len(pops) == 1 and first is not None and any(x is pops[0] for x in ast.walk(first))
+            ctx.ob(rid, f"{f.short}/pops-each-iteration", ok_pop, loc(f, w), "one element is popped at the top of every iteration" if ok_pop else
+                   "the worklist loop does not pop exactly one element at the top of every iteration", head(w))
+            pushes = [c for c in ast.walk(w) if isinstance(c, ast.Call) and isinstance(c.func, ast.Attribute) and c.func.attr in ("append", "extend", "appendleft")
+                      and is_name(c.func.value, wl)]
+            popped = first.targets[0].id if isinstance(first, ast.Assign) and isinstance(first.targets[0], ast.Name) else None
+            # visited idiom: `if x in visited: continue` before any push, and visited.add(x) in the body
+            visited_guard = [s for s in w.body if isinstance(s, ast.If) and isinstance(s.test, ast.Compare) and isinstance(s.test.ops[0], ast.In)
+                             and popped and is_name(s.test.left, popped) and any(isinstance(b, ast.Continue) for b in s.body)]
+            vis = norm(visited_guard[0].test.comparators[0]) if visited_guard else None
+            marks = [c for c in ast.walk(w) if isinstance(c, ast.Call) and isinstance(c.func, ast.Attribute) and c.func.attr == "add" and vis and norm(c.func.value) == vis
+                     and c.args and is_name(c.args[0], popped)]
+            for pc in pushes:
+                st = stmt_of(f.module, pc)
+                by_visited = bool(visited_guard) and bool(marks) and visited_guard[0].lineno < st.lineno and not E.path_condition(f.module, marks[0], w)
+                conds = E.path_condition(f.module, st, w)
+                by_counter = any(isinstance(t, ast.Compare) and isinstance(t.ops[0], ast.Eq) and isinstance(t.comparators[0], ast.Constant) and t.comparators[0].value == 0 and pol
+                                 and isinstance(t.left, ast.Subscript) for t, pol in conds)
+                if by_counter:
+                    tbl = [norm(t.left.value) for t, pol in conds if isinstance(t, ast.Compare) and isinstance(t.left, ast.Subscript)][0]
+                    by_counter = any(isinstance(x, ast.AugAssign) and isinstance(x.op, ast.Sub) and isinstance(x.target, ast.Subscript) and norm(x.target.value) == tbl
+                                     and x.lineno < st.lineno for x in ast.walk(w))
+                ok = by_visited or by_counter
+                ctx.ob(rid, f"{f.short}/push-bounded", ok, loc(f, pc),
+                       "pushes are bounded: " + ("each node is expanded once (visited set)" if by_visited else "a node is pushed when its strictly decreasing counter reaches zero") if ok else
+                       "a push onto the worklist is neither guarded by a visited set nor by a counter reaching zero: the loop may not terminate on cyclic input",
+                       norm(st)[:80])
+    ctx.floor(rid, "worklist loops on the calling thread", n, 3)
